@@ -116,3 +116,24 @@ impl Value {
     #[verifier::external_body]
     pub fn real_type_of(&self, ctx: Arc<ScriptContext>) -> (r: Result<Type, Error>) { unimplemented!() }
 }
+
+// ---- added for LoadBalanceConnector::connect (C17 "the member actually used is the one recorded")
+impl ContextRef {
+    /// the upstream name recorded for this connection (Context::set_connector)
+    pub uninterp spec fn recorded(&self) -> Seq<char>;
+    /// `ctx.write().await.set_connector(name)`
+    #[verifier::external_body]
+    pub fn vf_write_set_connector(&mut self, name: String)
+        ensures final(self).recorded() == name@, final(self).props_spec() == old(self).props_spec(),
+    { unimplemented!() }
+}
+impl ArcConnector {
+    #[verifier::external_body]
+    pub fn vf_name_owned(&self) -> (r: String) ensures r@ == self.name_spec() { unimplemented!() }
+    /// `<dyn Connector>::connect` of a member.  Its precondition IS the property: at the moment a member is asked to
+    /// connect, the connection must already record exactly this member as its upstream.
+    #[verifier::external_body]
+    pub fn connect(&self, state: Arc<GlobalState>, ctx: ContextRef) -> (r: Result<(), Error>)
+        requires ctx.recorded() == self.name_spec(),
+    { unimplemented!() }
+}
